@@ -1,0 +1,235 @@
+// Verification hooks (cargo feature `verif-hooks`).
+//
+// Everything in this module is inert unless the environment variable
+// REDO_VERIF_SOCK names a Unix socket: then every `point()` parks the
+// process until an external scheduler releases it, and `note()` reports an
+// event without waiting. Nothing here is compiled without the feature.
+
+use std::cell::RefCell;
+use std::env;
+use std::io::{Read, Write};
+use std::ops::{Add, Sub};
+use std::os::unix::net::UnixStream;
+use std::sync::atomic::{AtomicBool, AtomicU64, Ordering};
+use std::time::Duration;
+
+const ENV_SOCK: &str = "REDO_VERIF_SOCK";
+
+static QUIET: AtomicBool = AtomicBool::new(false);
+static IN_TXN: AtomicBool = AtomicBool::new(false);
+/// Virtual clock offset in microseconds (only used while active).
+static CLOCK_US: AtomicU64 = AtomicU64::new(0);
+
+thread_local! {
+    static CONN: RefCell<Option<(u32, UnixStream)>> = RefCell::new(None);
+}
+
+/// Reports whether a scheduler is attached to this process.
+pub fn active() -> bool {
+    !QUIET.load(Ordering::Relaxed) && env::var_os(ENV_SOCK).map_or(false, |v| !v.is_empty())
+}
+
+/// Stop talking to the scheduler in this process (used by short-lived helper forks).
+pub fn quiet() {
+    QUIET.store(true, Ordering::Relaxed);
+}
+
+/// Mark the start of a write transaction: points become notes until `txn_leave`.
+pub fn txn_enter() {
+    IN_TXN.store(true, Ordering::Relaxed);
+}
+
+pub fn txn_leave() {
+    IN_TXN.store(false, Ordering::Relaxed);
+}
+
+fn clean(s: &str) -> String {
+    s.replace('\n', " ").replace('\r', " ")
+}
+
+fn with_conn<T, F: FnOnce(&mut UnixStream) -> T>(f: F) -> Option<T> {
+    let path = env::var_os(ENV_SOCK)?;
+    let pid = std::process::id();
+    CONN.with(|c| {
+        let mut c = c.borrow_mut();
+        let stale = match c.as_ref() {
+            Some((p, _)) => *p != pid,
+            None => true,
+        };
+        if stale {
+            // After fork() the inherited stream belongs to the parent: forget it
+            // (closing our copy of the descriptor does not affect the parent).
+            *c = None;
+            match UnixStream::connect(&path) {
+                Ok(s) => *c = Some((pid, s)),
+                Err(_) => {
+                    quiet();
+                    return None;
+                }
+            }
+        }
+        c.as_mut().map(|(_, s)| f(s))
+    })
+}
+
+fn send(tag: char, kind: &str, detail: &str) -> bool {
+    let line = format!(
+        "{} {} {} {} {}\n",
+        tag,
+        std::process::id(),
+        nix::unistd::getppid(),
+        kind,
+        clean(detail)
+    );
+    with_conn(|s| s.write_all(line.as_bytes()).is_ok()).unwrap_or(false)
+}
+
+fn recv() -> Option<String> {
+    with_conn(|s| {
+        let mut out = Vec::new();
+        let mut b = [0u8; 1];
+        loop {
+            match s.read(&mut b) {
+                Ok(1) => {
+                    if b[0] == b'\n' {
+                        break;
+                    }
+                    out.push(b[0]);
+                }
+                Ok(_) => return None,
+                Err(e) if e.kind() == std::io::ErrorKind::Interrupted => continue,
+                Err(_) => return None,
+            }
+        }
+        Some(String::from_utf8_lossy(&out).into_owned())
+    })
+    .flatten()
+}
+
+/// Report an event without waiting.
+pub fn note(kind: &str, detail: &str) {
+    if !active() {
+        return;
+    }
+    let _ = send('N', kind, detail);
+}
+
+/// Park at a scheduling point until released. Returns the scheduler's argument
+/// (empty by default). `detail` is re-evaluated whenever the scheduler probes.
+pub fn point_dyn<F: FnMut() -> String>(kind: &str, mut detail: F) -> String {
+    if !active() {
+        return String::new();
+    }
+    if IN_TXN.load(Ordering::Relaxed) {
+        let _ = send('N', kind, &detail());
+        return String::new();
+    }
+    loop {
+        if !send('P', kind, &detail()) {
+            quiet();
+            return String::new();
+        }
+        match recv() {
+            Some(r) => {
+                if r == "probe" {
+                    continue;
+                }
+                let mut it = r.splitn(2, ' ');
+                let _go = it.next();
+                return it.next().unwrap_or("").to_string();
+            }
+            None => {
+                // Scheduler went away: run free.
+                quiet();
+                return String::new();
+            }
+        }
+    }
+}
+
+pub fn point(kind: &str, detail: &str) -> String {
+    point_dyn(kind, || detail.to_string())
+}
+
+/// Ask the scheduler which branch of a two-way `select!` to poll first.
+pub fn select_order(site: &str) -> bool {
+    if !active() {
+        return false;
+    }
+    point("select-order", site) == "1"
+}
+
+pub fn install_panic_hook() {
+    if !active() {
+        return;
+    }
+    let prev = std::panic::take_hook();
+    std::panic::set_hook(Box::new(move |info| {
+        note("panic", &format!("{}", info));
+        prev(info);
+    }));
+}
+
+/// Advance the virtual clock.
+pub fn advance_clock(d: Duration) {
+    CLOCK_US.fetch_add(d.as_micros() as u64 + 1000, Ordering::Relaxed);
+}
+
+/// Drop-in for `std::time::Instant` in the jobserver: real time normally, a
+/// scheduler-driven virtual clock while a scheduler is attached, so that
+/// wall-clock time never decides which timer fires.
+#[derive(Clone, Copy, Debug, PartialEq, Eq, PartialOrd, Ord)]
+pub enum Instant {
+    Real(std::time::Instant),
+    Virtual(u64),
+}
+
+impl Instant {
+    pub fn now() -> Instant {
+        if active() {
+            Instant::Virtual(CLOCK_US.load(Ordering::Relaxed))
+        } else {
+            Instant::Real(std::time::Instant::now())
+        }
+    }
+}
+
+impl Add<Duration> for Instant {
+    type Output = Instant;
+    fn add(self, d: Duration) -> Instant {
+        match self {
+            Instant::Real(i) => Instant::Real(i + d),
+            Instant::Virtual(us) => Instant::Virtual(us + d.as_micros() as u64),
+        }
+    }
+}
+
+impl Sub<Instant> for Instant {
+    type Output = Duration;
+    fn sub(self, o: Instant) -> Duration {
+        match (self, o) {
+            (Instant::Real(a), Instant::Real(b)) => a - b,
+            (Instant::Virtual(a), Instant::Virtual(b)) => Duration::from_micros(a.saturating_sub(b)),
+            _ => Duration::from_micros(0),
+        }
+    }
+}
+
+/// Two-branch replacement for `futures::select!` whose poll order is chosen by
+/// the scheduler (source order by default) instead of pseudo-randomly.
+#[macro_export]
+macro_rules! verif_select {
+    ($p1:pat = $f1:ident => $b1:expr, $p2:pat = $f2:ident => $b2:expr $(,)?) => {
+        if $crate::verif::select_order(concat!(file!(), ":", line!())) {
+            futures::select_biased! {
+                $p2 = $f2 => $b2,
+                $p1 = $f1 => $b1,
+            }
+        } else {
+            futures::select_biased! {
+                $p1 = $f1 => $b1,
+                $p2 = $f2 => $b2,
+            }
+        }
+    };
+}
